@@ -1,6 +1,6 @@
 (* C04 at connection level: c04_vsock_ack_ok (Conn/C04_Pred.v) against EVERY trace of the model.
    FALSE as written, in two ways (witnesses at the end of the file); under the guard c04_peer_ok of
-   Conn/C04_Pred2.v (at most WRAP_TOLERANCE sequence-carrying packets, 16-bit sequence numbers, no ST_DATA
+   Conn/C04_Guard.v (at most WRAP_TOLERANCE sequence-carrying packets, 16-bit sequence numbers, no ST_DATA
    numbered at or above an ST_FIN) it is a theorem of every trace from vsock_new on a valid configuration:
    c04_vsock_ack_guarded_trace.
    The invariant: last_consumed = base + K where K = the number of slots the reassembly queue has consumed so far
@@ -11,7 +11,7 @@ From Utp Require Rx.Rx_Slots.
 From Utp Require Import Base.Prelude Wire.SeqNr Wire.SeqNr_Proofs Wire.Header Wire.Header_Proofs Rtt.Rtte Mtu.SegSizes
   Rx.Rx Rx.Rx_Proofs Tx.Ring Tx.Segments Conn.Recovery Conn.Msg Conn.VSockRec Conn.VSock Conn.VSockRun Conn.VObs
   Conn.VSock_Lemmas Conn.VSock_LemmasStep Conn.VSock_LemmasTx Conn.VSock_LemmasFin Conn.C17_Pred Conn.C17_Proofs
-  Conn.VSock_LemmasIn Conn.C17_StepLemmas Conn.C17_Step Conn.C04_Pred Conn.C04_Pred2 Conn.C17_TraceLemmas.
+  Conn.VSock_LemmasIn Conn.C17_StepLemmas Conn.C17_Step Conn.C04_Pred Conn.C04_Guard Conn.C17_TraceLemmas.
 
 (* ------------------------------------------------------------------ 16-bit arithmetic *)
 Lemma wadd16_range a b : 0 <= wadd16 a b < M16.
